@@ -12,6 +12,11 @@ stream   1-3 messages (built by the real SendingMessage, by the harness's own en
 direct   the same bytes handed to ReceivingMessage(header, payload) without a socket.
 sender   sender-side inputs only: bad annotation keys, str values, sizes around MAX_MESSAGE_SIZE.
 sweep    one small message and one fault kind applied at EVERY offset (truncate after o bytes / flip byte o).
+concurrent  (own plans, ~12% of the runs) 2-3 simulated threads each build their own 2-6 messages with
+         SendingMessage and decode them with recv_stub over their own scripted socket, with line-granular
+         pre-emption inside SendingMessage.__init__, ReceivingMessage.__init__, add_payload, validate and
+         recv_stub: every thread's bytes (reference parser) and decoded messages must be its OWN specs
+         (catches module-level / shared mutable state in the codec).
 
 The oracle walks the delivered byte stream in lockstep with an independent reference codec
 (sim.net.parse_header / parse_annotations + the builder below): whatever Pyro accepts must be a
@@ -21,11 +26,13 @@ from sender-buildable fields and delivered intact must be accepted with exactly 
 import errno
 import random
 import socket
+import threading
 import uuid
 import zlib
 
 from ..world import World
 from .. import net as N
+from .. import sched as S
 from ..seams import PR, SU, config, current_context
 import Pyro5.errors as E
 
@@ -185,15 +192,27 @@ def _chunk_len_pos(raw, idx):
     return None
 
 
+_CONC_CODES = None
+
+
+def _conc_codes():
+    global _CONC_CODES
+    if _CONC_CODES is None:
+        _CONC_CODES = S.code_objects(PR.SendingMessage.__init__, PR.ReceivingMessage.__init__, PR.ReceivingMessage.add_payload,
+                                     PR.ReceivingMessage.validate, PR.recv_stub)
+    return _CONC_CODES
+
+
 # ---------------------------------------------------------------- scripted socket
 class ScriptSock:
     family = socket.AF_INET
     type = socket.SOCK_STREAM
     proto = 0
 
-    def __init__(self, data, tr, rst=False):
+    def __init__(self, data, tr, rst=False, sched=None):
         self.data = data
         self.pos = 0
+        self.sched = sched
         self.mode = tr.get("mode", "full")
         self.kmax = max(1, int(tr.get("kmax", 1)))
         self.p_err = tr.get("p_err", 0.0)
@@ -231,6 +250,8 @@ class ScriptSock:
 
     def recv(self, n, flags=0):
         self.nrecv += 1
+        if self.sched is not None:
+            self.sched.yield_point("recv")
         if n <= 0:
             return b""
         r = self.rng
@@ -283,18 +304,19 @@ class WireWorld(World):
               "oversize_sender", "oversize_receiver", "mutated_accepted", "mutated_rejected", "boundary_field",
               "max_boundary_exact", "direct_decode", "ref_built_accepted", "hostile_accepted", "hostile_rejected",
               "sender_bad_key", "sender_str_value", "open_end", "sentinel_read", "large_over_60000",
-              "chunk_overrun_rejected", "reencoded", "sweep_cut", "sweep_flip"]
+              "chunk_overrun_rejected", "reencoded", "sweep_cut", "sweep_flip",
+              "concurrent", "concurrent_preempted", "concurrent_overlap"]
     RULE = ("plan = (COMPRESSION, MAX_MESSAGE_SIZE, correlation id, USE_MSG_WAITALL; 8-16 cases, each a stream of 1-3 "
             "messages with boundary-biased fields + sentinel + transport script (fragmentation seed, errno/short-read "
             "probabilities, truncation offset, mutation list) or a sender-only input); distinct = distinct plan digest / "
             "distinct transport event digest; non-trivial = at least one transport fault or mutation fired or a size "
             "refusal was exercised")
-    ASSUMPTIONS = ["runs without python -O (add_payload's tiling check is an assert)",
+    ASSUMPTIONS = ["concurrent cases: pre-emption granularity is the source line inside SendingMessage.__init__, ReceivingMessage.__init__/add_payload/validate and recv_stub; MAX_MESSAGE_SIZE is left at the default there",
                    "equivalence of re-encoded messages is judged at the decoded level",
                    "only byte-format memoryview annotation values are generated",
                    "a caller-supplied FLAGS_COMPRESSED / FLAGS_CORR_ID bit is treated as 'managed by the codec' (10% of messages)",
                    "retryable errnos come in bursts of at most 3; timeouts are not part of this property"]
-    QUICK_RUNS = 16000
+    QUICK_RUNS = 12000
     CHUNK = 250
     SHRINK_LISTS = ["cases"]
 
@@ -315,8 +337,38 @@ class WireWorld(World):
         else:
             corr = rng.choice(["00" * 16, "ff" * 16, "00" * 15 + "01", "80" + "00" * 15])
         cfg = {"comp": rng.random() < 0.5, "max": smax, "corr": corr, "waitall": rng.random() < 0.5}
+        if rng.random() < 0.12:
+            # a threaded plan: only concurrent cases (line pre-emption is switched on for the whole run)
+            return {"cfg": cfg, "cases": [self._gen_conc_case(rng, cfg) for _ in range(rng.randint(2, 5))],
+                    "p_line": rng.choice([0.05, 0.1, 0.15, 0.2, 0.3]), "p_block": rng.choice([0.0, 0.2, 0.5, 1.0])}
         n = rng.randint(8, 16)
         return {"cfg": cfg, "cases": [self._gen_case(rng, cfg) for _ in range(n)]}
+
+    def _gen_conc_case(self, rng, cfg):
+        c2 = dict(cfg, max=None)
+        threads = []
+        for _ in range(rng.randint(2, 3)):
+            msgs = []
+            for _ in range(rng.randint(2, 6)):
+                m = self._gen_msg(rng, c2, allow_big=False)
+                if m["pay"]["len"] > 400:
+                    m["pay"]["len"] = rng.randint(0, 400)
+                m["flags"] &= ~MANAGED
+                used = {k for k, _ in m["ann"]}
+                while len(m["ann"]) < 2 or (len(m["ann"]) < 6 and rng.random() < 0.5):     # a long constructor
+                    m["ann"].append([self._key(rng, used), {"len": rng.randint(0, 12), "seed": rng.getrandbits(16), "mode": "text",
+                                                            "as": rng.choice(["bytes", "bytearray", "memoryview"])}])
+                msgs.append(m)
+            r = rng.random()
+            corr = None if r < 0.3 else "%032x" % rng.getrandbits(128)
+            tr = self._gen_tr(rng, 0)
+            tr["eof"] = True
+            tr["p_err"] = rng.choice([0, 0, 0.05, 0.2])
+            if tr["mode"] == "bytewise":
+                tr["mode"] = "rand"
+                tr["kmax"] = max(tr["kmax"], 7)
+            threads.append({"corr": corr, "msgs": msgs, "tr": tr, "order": rng.choice(["batch", "alt"])})
+        return {"k": "conc", "threads": threads}
 
     @staticmethod
     def _key(rng, used):
@@ -540,6 +592,11 @@ class WireWorld(World):
             m["pay"]["len"] = max(0, cfg["max"] - asz + rng.choice([-1, 0, 1, 1, 2, 100]))
         return {"k": "sender", "msg": m, "bad": bad}
 
+    def line_codes(self, plan):
+        if any(c.get("k") == "conc" for c in plan.get("cases") or []):
+            return _conc_codes()
+        return ()
+
     # ================================================================ shrinking help
     def simplify(self, plan):
         import copy
@@ -644,12 +701,148 @@ class WireWorld(World):
                 self._sender_case(ctx, i, case, cfg)
             elif case.get("k") == "sweep":
                 self._sweep_case(ctx, i, case, cfg)
+            elif case.get("k") == "conc":
+                self._conc_case(ctx, i, case, cfg)
             else:
                 self._stream_case(ctx, i, case, cfg)
             if len(ctx.violations) > nv and not self._info_done:
                 self._info_done = True
                 ctx.info["first_violating_case"] = i
         current_context.correlation_id = None
+
+    # ---------------------------------------------------------------- concurrent builders / readers
+    def _conc_case(self, ctx, i, case, cfg):
+        sched = ctx.sched
+        config.MAX_MESSAGE_SIZE = BIG
+        ctx.probe("concurrent")
+        pre0 = sched.preempts
+        recs = []
+
+        def worker(ti, th, rec):
+            try:
+                current_context.correlation_id = uuid.UUID(hex=th["corr"]) if th.get("corr") else None
+                specs = th.get("msgs") or []
+                objs = []
+                for spec in specs:
+                    ann = {}
+                    for k, v in spec.get("ann") or []:
+                        ann[k] = _ann_value(v)
+                    objs.append((_bytes(spec.get("pay")), ann))
+
+                def build(k):
+                    spec = specs[k]
+                    t0 = sched.stamp()
+                    try:
+                        sm = PR.SendingMessage(spec["type"], spec["flags"], spec["seq"], spec["ser"], objs[k][0], objs[k][1] or None)
+                        out = bytes(sm.data)
+                    except Exception as x:  # noqa
+                        out = x
+                    rec["enc"].append((t0, sched.stamp(), out))
+                    sched.ev("c-enc", i, ti, k, len(out) if isinstance(out, bytes) else type(out).__name__)
+                    return out
+
+                def read(conn, k):
+                    try:
+                        msg = PR.recv_stub(conn)
+                        out = _decoded(msg)
+                    except Exception as x:  # noqa
+                        out = x
+                    rec["dec"].append(out)
+                    sched.ev("c-dec", i, ti, k, "msg" if isinstance(out, dict) else type(out).__name__)
+                    return out
+
+                if th.get("order") == "alt":
+                    for k in range(len(specs)):
+                        raw = build(k)
+                        if not isinstance(raw, bytes):
+                            break
+                        sock = ScriptSock(raw, dict(th.get("tr") or {}, eof=True, seed=(th.get("tr") or {}).get("seed", 0) + k), sched=sched)
+                        if not isinstance(read(SU.SocketConnection(sock, keep_open=True), k), dict):
+                            break
+                else:
+                    raws = []
+                    for k in range(len(specs)):
+                        raw = build(k)
+                        if not isinstance(raw, bytes):
+                            break
+                        raws.append(raw)
+                    sock = ScriptSock(b"".join(raws), dict(th.get("tr") or {}, eof=True), sched=sched)
+                    conn = SU.SocketConnection(sock, keep_open=True)
+                    for k in range(len(raws)):
+                        if not isinstance(read(conn, k), dict):
+                            break
+                    rec["left"] = len(sock.data) - sock.pos
+            except _Hang:
+                rec["hang"] = True
+            finally:
+                current_context.correlation_id = None
+                rec["done"] = True
+
+        ths = []
+        for ti, th in enumerate(case.get("threads") or []):
+            rec = {"enc": [], "dec": [], "done": False, "left": 0}
+            recs.append(rec)
+            ths.append(threading.Thread(target=worker, args=(ti, th, rec), name="wire-c%d-t%d" % (i, ti)))
+        for t in ths:
+            t.start()
+        for t in ths:
+            t.join(3600.0)
+        for t in ths:
+            st = sched.sim_thread_of(t)
+            if st is not None and st.died:
+                raise S.HarnessError("concurrent worker died: %r" % (st.died,))
+        if not all(r["done"] for r in recs):
+            ctx.violate("hang", "concurrent", "case %d: a thread building / decoding its own messages did not finish within 3600 virtual seconds" % i)
+            return
+        if sched.preempts > pre0:
+            ctx.probe("concurrent_preempted")
+            ctx.nontrivial = True
+        iv = [(a, b, ti) for ti, r in enumerate(recs) for a, b, _ in r["enc"]]
+        if any(a1 < b2 and a2 < b1 and t1 != t2 for n, (a1, b1, t1) in enumerate(iv) for a2, b2, t2 in iv[n + 1:]):
+            ctx.probe("concurrent_overlap")
+        # ---- oracle: every thread sees only its own messages
+        for ti, (th, rec) in enumerate(zip(case.get("threads") or [], recs)):
+            specs = th.get("msgs") or []
+            enc_ok = True
+            for k, (_, _, out) in enumerate(rec["enc"]):
+                spec = specs[k]
+                exp = {"type": spec["type"], "flags": spec["flags"] & ~MANAGED, "seq": spec["seq"], "ser": spec["ser"],
+                       "ann": {a: _bytes(v) for a, v in spec.get("ann") or []},
+                       "corr": bytes.fromhex(th["corr"]) if th.get("corr") else None, "data": _bytes(spec.get("pay"))}
+                skip = ("corr",) if spec["flags"] & F_CORR else ()
+                if not isinstance(out, bytes):
+                    ctx.violate("cross-thread-corruption", "encoder", "case %d thread %d message %d: SendingMessage raised %r while "
+                                "other threads were building messages" % (i, ti, k, out))
+                    enc_ok = False
+                    break
+                rk, rf = ref_parse(out, 0, BIG, exact=True)
+                d = _diff(rf, exp, skip) if rk == "msg" else rk
+                if d:
+                    ctx.violate("cross-thread-corruption", "encoder", "case %d thread %d message %d: the bytes built by this thread are "
+                                "not its own message (reference parser: %s%s); header %s" % (
+                                    i, ti, k, d, "" if rk != "msg" else " = %s, this thread encoded %s" % (_short(rf[d]), _short(exp[d])),
+                                    out[:40].hex()))
+                    enc_ok = False
+                    break
+                if k < len(rec["dec"]):
+                    dec = rec["dec"][k]
+                    if not isinstance(dec, dict):
+                        ctx.violate("cross-thread-corruption", "decoder", "case %d thread %d message %d: bytes are this thread's own "
+                                    "well-formed message but decoding raised %r" % (i, ti, k, dec))
+                        enc_ok = False
+                        break
+                    d = _diff(dec, exp, skip)
+                    if d:
+                        ctx.violate("cross-thread-corruption", "decoder", "case %d thread %d message %d: field %s decoded as %s, this "
+                                    "thread encoded %s (bytes were correct)" % (i, ti, k, d, _short(dec[d]), _short(exp[d])))
+                        enc_ok = False
+                        break
+            if enc_ok:
+                if rec.get("hang"):
+                    ctx.violate("hang", "concurrent", "case %d thread %d: the reader asked for more bytes than were sent" % (i, ti))
+                elif len(rec["dec"]) != len(rec["enc"]) or rec["left"]:
+                    ctx.violate("cursor-mismatch", "concurrent", "case %d thread %d: %d messages built, %d decoded, %d bytes left"
+                                % (i, ti, len(rec["enc"]), len(rec["dec"]), rec["left"]))
 
     # ---------------------------------------------------------------- sender side
     def _encode_sut(self, ctx, i, spec, cfg):
